@@ -258,6 +258,20 @@ func runC17Scenario(c *fw.Ctx, sc c17Scenario, seed int64) {
 			}
 			return k - 2
 		}
+	case "not-serving-forever-probe-ok":
+		// every request is answered not-serving although the region probe (a read
+		// of the region) succeeds - what a regionserver with a closed WAL does to
+		// writes. Each attempt is preceded by a re-establishment that succeeds at once.
+		cl.OnAction = func(req *sim.Request, a *sim.Action) *sim.Exc {
+			if a.OpID == opid {
+				return &sim.Exc{Class: sim.ExcNSRE}
+			}
+			return nil
+		}
+		// (the attempt after the first not-serving answer follows a completed
+		// re-establishment - the zero-wait first step of that schedule - so that a
+		// moved region is followed at once; from then on the schedule applies)
+		measured, what, free = &userWrites, "request-attempts", 1
 	case "abort-exception-forever":
 		cl.OnAction = func(req *sim.Request, a *sim.Action) *sim.Exc {
 			if a.OpID == opid {
@@ -410,7 +424,7 @@ func init() {
 			}
 			names := []string{"too-busy-forever", "call-queue-forever", "region-opening-forever", "abort-exception-forever", "drop-on-user-frame",
 				"too-busy-and-not-serving-alternating", "abort-abort-not-serving-repeating",
-				"drop-on-probe", "dial-refused", "region-never-online", "meta-silent", "meta-lookup-error", "zookeeper-errors"}
+				"not-serving-forever-probe-ok", "drop-on-probe", "dial-refused", "region-never-online", "meta-silent", "meta-lookup-error", "zookeeper-errors"}
 			k := 0
 			for _, n := range names {
 				entries := []string{"get", "batch"}
